@@ -11,6 +11,8 @@ import Driver.C09
 import Driver.C10
 import Driver.C05
 import Driver.C07
+import Driver.Queue
+import Driver.C03
 
 /-- global driver state: one slot per stateful model -/
 structure St where
@@ -22,6 +24,8 @@ structure St where
   c10 : Driver.C10.State := Driver.C10.init
   c05 : Driver.C05.State := Driver.C05.init
   c07 : Driver.C07.State := Driver.C07.init
+  c06 : Driver.Queue.DState := Driver.Queue.init
+  c14 : Driver.Queue.DState := Driver.Queue.init
 
 def stepLine (st : St) (line : String) : St × String :=
   match (line.trimAscii.toString.splitOn " ").filter (· ≠ "") with
@@ -29,6 +33,10 @@ def stepLine (st : St) (line : String) : St × String :=
   | "C19" :: rest => let (s', o) := Driver.C19.step st.c19 rest; ({ st with c19 := s' }, o)
   | "C02" :: rest => let (s', o) := Driver.C02.step st.c02 rest; ({ st with c02 := s' }, o)
   | "C10" :: rest => let (s', o) := Driver.C10.step st.c10 rest; ({ st with c10 := s' }, o)
+  | "C03" :: rest => (st, Driver.C03.step rest)
+  | "C06" :: rest => let (s', o) := Driver.Queue.step st.c06 rest; ({ st with c06 := s' }, o)
+  | "C14" :: rest => let (s', o) := Driver.Queue.step st.c14 rest; ({ st with c14 := s' }, o)
+  | "C13B" :: rest => (st, Driver.Queue.stepPrune rest)
   | "C07" :: rest => let (s', o) := Driver.C07.step st.c07 rest; ({ st with c07 := s' }, o)
   | "C05" :: rest => let (s', o) := Driver.C05.step st.c05 rest; ({ st with c05 := s' }, o)
   | "C09" :: rest => (st, Driver.C09.step rest)
